@@ -20,6 +20,7 @@ from __future__ import annotations
 
 import ast
 import copy
+from collections import Counter
 from typing import Dict, List, Optional, Set, Tuple
 
 from .model import AnalysisError, FuncInfo, Program, accessor_value, unparse
@@ -661,7 +662,10 @@ class Inliner:
         lower = any(isinstance(n, (ast.Assign, ast.AnnAssign, ast.Return)) and isinstance(getattr(n, 'value', None), ast.IfExp) for n in ast.walk(func.node)) or any(
             isinstance(n, (ast.Expr, ast.Assign, ast.Return)) and isinstance(getattr(n, 'value', None), ast.Call) and any(
                 isinstance(x, ast.IfExp) for x in list(n.value.args) + [k.value for k in n.value.keywords]) for n in ast.walk(func.node))
-        aliases = _pure_aliases(func.node)
+        takeover = any(isinstance(n, ast.Assign) and isinstance(n.value, ast.Constant) and n.value.value is None and len(n.targets) == 1 and isinstance(n.targets[0], ast.Attribute)
+                       for n in ast.walk(func.node)) or any(isinstance(n, ast.Assign) and len(n.targets) == 1 and isinstance(n.targets[0], ast.Tuple) and isinstance(n.value, ast.Tuple)
+                                                            for n in ast.walk(func.node))
+        aliases = _pure_aliases(func.node) or (_defer_clears(copy.deepcopy(func.node)) if takeover else set())
         has_prop = func.owner_class is not None and any(isinstance(n, ast.Attribute) and isinstance(n.ctx, ast.Load) and isinstance(n.value, ast.Name) and n.value.id == 'self'
                                                         and n.attr in self._trivial_props(func.owner_class) for n in ast.walk(func.node))
         maybe_rev = any(isinstance(n, ast.Assign) and len(n.targets) == 1 and isinstance(n.targets[0], ast.Attribute) and isinstance(n.value, ast.Name) for n in ast.walk(func.node))
@@ -687,6 +691,9 @@ class Inliner:
                 collect(g)
         collect(tmp)
         func.module.all_funcs[:] = [g for g in func.module.all_funcs if id(g) not in scratch]
+        taken = _defer_clears(node)
+        if taken:
+            self.log.append(f'{func.qualname}: value taken out of an attribute before it is cleared, read as the attribute cleared afterwards ({", ".join(sorted(taken))})')
         al = _pure_aliases(node)
         if al:
             _propagate(node, al)
@@ -952,6 +959,8 @@ def _reverse_aliases(fn: ast.AST) -> Set[str]:
     pos: Dict[int, int] = {}
     loops: List[Tuple[int, int]] = []
 
+    calls: List[Tuple[int, int]] = []
+
     def number(nodes, k=[0]):
         for n in nodes:
             k[0] += 1
@@ -964,6 +973,8 @@ def _reverse_aliases(fn: ast.AST) -> Set[str]:
             number(ast.iter_child_nodes(n), k)
             if isinstance(n, (ast.For, ast.While, ast.AsyncFor)):
                 loops.append((start, k[0]))
+            if isinstance(n, (ast.Call, ast.Await, ast.Yield, ast.YieldFrom)):
+                calls.append((start, k[0]))
     number(fn.body)
     a = fn.args
     params = {x.arg for x in a.posonlyargs + a.args + a.kwonlyargs}
@@ -972,10 +983,29 @@ def _reverse_aliases(fn: ast.AST) -> Set[str]:
         if not (isinstance(st, ast.Assign) and len(st.targets) == 1 and isinstance(st.targets[0], ast.Attribute) and isinstance(st.value, ast.Name)):
             continue
         tgt, name = st.targets[0], st.value.id
-        if not (isinstance(tgt.value, ast.Name) and tgt.value.id == 'self') or name in params or stores.get(name) != 1 or attr_stores.get(tgt.attr) != 1:
+        if not (isinstance(tgt.value, ast.Name) and tgt.value.id == 'self') or attr_stores.get(tgt.attr) != 1:
             continue
         at = pos[id(st)]
         if any(lo <= at <= hi for lo, hi in loops):
+            continue
+        if name in params:
+            # ``self._block = block`` with ``block`` a parameter never re-bound: until something is CALLED (which might re-bind the attribute) the two name one object
+            if stores.get(name, 0) != 0 or name == 'self':
+                continue
+            for n in ast.walk(fn):
+                for field, val in ast.iter_fields(n):
+                    items = val if isinstance(val, list) else [val]
+                    for i, ch in enumerate(items):
+                        if isinstance(ch, ast.Name) and ch.id == name and isinstance(ch.ctx, ast.Load) and pos.get(id(ch), 0) > at and ch is not st.value \
+                                and not any(at < lo and hi < pos[id(ch)] for lo, hi in calls) and not any(lo <= pos[id(ch)] <= hi for lo, hi in loops):
+                            new = ast.copy_location(ast.Attribute(value=ast.Name(id='self', ctx=ast.Load()), attr=tgt.attr, ctx=ast.Load()), ch)
+                            if isinstance(val, list):
+                                val[i] = new
+                            else:
+                                setattr(n, field, new)
+                            done.add(name)
+            continue
+        if stores.get(name) != 1:
             continue
         # the local must hold a fresh container / object (a literal or a constructor call), so that nobody else can re-bind the attribute's object
         defs = [d for d in ast.walk(fn) if isinstance(d, (ast.Assign, ast.AnnAssign)) and isinstance(d.targets[0] if isinstance(d, ast.Assign) else d.target, ast.Name)
@@ -996,3 +1026,87 @@ def _reverse_aliases(fn: ast.AST) -> Set[str]:
     if done:
         ast.fix_missing_locations(fn)
     return done
+
+
+def _defer_clears(fn: ast.AST) -> Set[str]:
+    """``x, self._a = self._a, None`` (or ``x = self._a`` ; ``self._a = None``) followed by uses of ``x`` that touch nothing but ``x`` itself:
+    the object is taken out of the attribute, the attribute cleared, the object then worked on.  Normal form (in place): ``x = self._a`` ; the uses ; ``self._a = None``
+    -- the order the rules about "who resolves the future kept in self._a" are written against (the alias is then read through as the attribute).
+    Only when, between the clearing and the last use, nothing is called except methods of ``x`` with constant arguments, and ``self._a`` is not mentioned."""
+    if isinstance(fn, ast.Lambda):
+        return set()
+    done: Set[str] = set()
+
+    def simple(e: ast.AST) -> bool:
+        return isinstance(e, (ast.Name, ast.Constant)) or (isinstance(e, ast.Attribute) and simple(e.value))
+
+    def blocks(stmts: List[ast.stmt]):
+        yield stmts
+        for st in stmts:
+            if isinstance(st, (ast.FunctionDef, ast.AsyncFunctionDef, ast.ClassDef)):
+                continue
+            for fld in ('body', 'orelse', 'finalbody'):
+                sub = getattr(st, fld, None)
+                if isinstance(sub, list) and sub and isinstance(sub[0], ast.stmt):
+                    yield from blocks(sub)
+            for h in getattr(st, 'handlers', []) or []:
+                yield from blocks(h.body)
+    stores = Counter(n.id for n in ast.walk(fn) if isinstance(n, ast.Name) and isinstance(n.ctx, (ast.Store, ast.Del)))
+    for block in list(blocks(fn.body)):
+        i = 0
+        while i < len(block):
+            st = block[i]
+            # ``a, b = e1, e2`` with simple values and no target read by a later value: the assignments one after the other
+            if (isinstance(st, ast.Assign) and len(st.targets) == 1 and isinstance(st.targets[0], ast.Tuple) and isinstance(st.value, ast.Tuple)
+                    and len(st.targets[0].elts) == len(st.value.elts) == 2 and all(simple(e) for e in st.value.elts) and all(simple(t) for t in st.targets[0].elts)
+                    and isinstance(st.targets[0].elts[0], ast.Name) and isinstance(st.targets[0].elts[1], ast.Attribute)
+                    and _text(st.targets[0].elts[1]) == _text(st.value.elts[0]) and isinstance(st.value.elts[1], ast.Constant) and st.value.elts[1].value is None):
+                t0, t1 = st.targets[0].elts
+                a1 = ast.copy_location(ast.Assign(targets=[t0], value=st.value.elts[0]), st)
+                a2 = ast.copy_location(ast.Assign(targets=[t1], value=st.value.elts[1]), st)
+                block[i:i + 1] = [a1, a2]
+                st = a1
+            # ``x = self._a`` ; ``self._a = None``
+            if not (isinstance(st, ast.Assign) and len(st.targets) == 1 and isinstance(st.targets[0], ast.Name) and isinstance(st.value, ast.Attribute) and simple(st.value)
+                    and i + 1 < len(block)):
+                i += 1
+                continue
+            nx = block[i + 1]
+            x, attr = st.targets[0].id, _text(st.value)
+            if not (isinstance(nx, ast.Assign) and len(nx.targets) == 1 and _text(nx.targets[0]) == attr and isinstance(nx.value, ast.Constant) and nx.value.value is None
+                    and stores[x] == 1):
+                i += 1
+                continue
+            rest = block[i + 2:]
+            uses = [j for j, r in enumerate(rest) if any(isinstance(n, ast.Name) and n.id == x for n in ast.walk(r))]
+            if not uses:
+                i += 1
+                continue
+            last = uses[-1]
+            span = rest[:last + 1]
+            loads_all = sum(1 for n in ast.walk(fn) if isinstance(n, ast.Name) and n.id == x and isinstance(n.ctx, ast.Load))
+            loads_span = sum(1 for r in span for n in ast.walk(r) if isinstance(n, ast.Name) and n.id == x and isinstance(n.ctx, ast.Load))
+            ok = loads_all == loads_span   # every use of the local is in the stretch that is moved over
+            for r in span:
+                for n in ast.walk(r):
+                    if _text(n) == attr if isinstance(n, ast.Attribute) else False:
+                        ok = False
+                    if isinstance(n, (ast.Await, ast.Yield, ast.YieldFrom, ast.FunctionDef, ast.AsyncFunctionDef, ast.Lambda, ast.For, ast.While, ast.Return, ast.Raise, ast.Try, ast.With)):
+                        ok = False
+                    if isinstance(n, ast.Call) and not (isinstance(n.func, ast.Attribute) and isinstance(n.func.value, ast.Name) and n.func.value.id == x
+                                                        and all(isinstance(a_, ast.Constant) for a_ in n.args) and not n.keywords):
+                        ok = False
+            if not ok:
+                i += 1
+                continue
+            clear = block.pop(i + 1)
+            block.insert(i + 1 + last + 1, clear)
+            done.add(x)
+            i += 1
+    if done:
+        ast.fix_missing_locations(fn)
+    return done
+
+
+def _text(e: ast.AST) -> str:
+    return ' '.join(ast.unparse(e).split())
